@@ -30,7 +30,7 @@ def run(m: Model, r: Report, tier: str) -> None:
     tr.protocol_tables(m, r, "R12", DOIP, iso13400.DOIP_TABLES)
     r.rule("R13", "frame decoding is total: wire integers are coerced only into enums with a catch-all member", floor=4)
     tr.wire_enum_coercion_total(m, r, "R13", DOIP, ("unpack", "_read_frame", "_read_worker"), strict=("GenericHeader.unpack", "._read_frame", "._read_worker"))
-    r.rule("R14", "payload decoders accept every length ISO 13400-2 allows for their type (optional OEM-specific / maximum-data-size fields)", floor=4)
+    r.rule("R14", "payload decoders accept every length ISO 13400-2 allows for their type (optional OEM-specific / maximum-data-size fields)", floor=2)
     tr.optional_payload_fields(m, r, "R14", DOIP, iso13400.DOIP_PAYLOAD_LENGTHS)
     r.rule("R9", "the acknowledgement wait is bounded; on timeout the connection is closed and BrokenPipeError raised", floor=3)
     r.rule("R10", "all consumers of the read queue are mutually excluded by the connection mutex (a reader cannot steal a writer's ack)", floor=1)
